@@ -784,10 +784,12 @@ class C20(Prop):
                     else:
                         for k in g["keys"]:
                             # (a variable that is / is reduced to one element goes through a bare scalar in the in-memory
-                            #  Dataset.take and is re-wrapped without metadata: as for single variables the element is
-                            #  compared, not the wrapper)
+                            #  Dataset.take and is re-wrapped: the element and the variable's metadata - kept on both
+                            #  sides - are compared, the dtype of the wrapper (str: object from the file, <U from memory) is not)
                             reduced = g["vars"][k]["shape"] == []
                             if not same({"ok": g["vars"][k]}, {"ok": e["vars"][k]}, meta=not reduced):
+                                prop_bad.append("multi.var:" + k)
+                            elif reduced and g["vars"][k].get("attrs_py") != e["vars"][k].get("attrs_py"):
                                 prop_bad.append("multi.var:" + k)
                         # metadata of the dataset and of the axes that remain
                         if g["attrs"] != e["attrs"]:
